@@ -341,13 +341,17 @@ func (dc *directoryCache) Add(key string, opts ...Option) (Writer, error) {
 				dc.putBuffer(b) // already exists in the cache. abort it.
 			}
 			commit := func() error {
+				defer verifPersistStage(key, 3)
 				defer done()
 				defer w.Close()
+				defer verifPersistStage(key, 2)
+				verifPersistStage(key, 0)
 				n, err := w.Write(cached.(*bytes.Buffer).Bytes())
 				if err != nil || n != cached.(*bytes.Buffer).Len() {
 					w.Abort()
 					return err
 				}
+				verifPersistStage(key, 1)
 				return w.Commit()
 			}
 			if dc.syncAdd {
